@@ -36,7 +36,12 @@ def get_inherited(t: Type) -> Type:
     else:
         return Any  # type: ignore
 
-    r = base_classes[0]  # type: ignore
+    # `Generic[...]` only declares the type variables: the class to inherit from is the first
+    # other base.
+    r = next(
+        (b for b in base_classes if get_origin(b) is not typing.Generic),  # type: ignore
+        base_classes[0],  # type: ignore
+    )
 
     g_args = get_args(t)
     if len(g_args) > 0:
